@@ -441,7 +441,7 @@ pub fn parse_opts() -> Opts {
     };
     let seed = std::env::var("VERIF_SEED").ok().and_then(|s| s.parse::<u64>().ok()).unwrap_or(0);
     let default_budget = match mode {
-        Mode::Run(Tier::Thorough) => 1500.0,
+        Mode::Run(Tier::Thorough) => 900.0,
         _ => 40.0,
     };
     let budget_s = std::env::var("VERIF_BUDGET_S").ok().and_then(|s| s.parse::<f64>().ok()).unwrap_or(default_budget);
